@@ -747,8 +747,16 @@ def _prof_diag_shapes(tier):
             for ps in ((0,) if tier == 'quick' else (0, 2, 3)):      # 3: a residue code with a negative self-score (X); ~230 s per shape, thorough only
                 out.append(dict(name='n%d_ts%d_te%d_p%d' % (n, ts, te, ps), defs=dict(KV_ROWS=ln, KV_LB=ln, KV_S=S, KV_E=E, KV_PSET=ps)))
     return out
+def _prof_diag_shapes_pp(tier):
+    # profile-profile: measured under a 14-way parallel thorough run, every shape with 3 or more profile columns on each side
+    # except the ones kept here exceeded 1500 s; they are not registered
+    sh = _prof_diag_shapes(tier)
+    if tier == 'quick':
+        return [x for x in sh if 'ts1_te1' in x['name']]       # the ts0_te0 block (4 profile columns) takes several hundred seconds
+    keep = ('n1_', 'n2_ts1_te1_', 'n3_ts1_te1_p0', 'n3_ts1_te1_p3')
+    return [x for x in sh if x['name'].startswith(keep) and not (x['name'].startswith('n1_') and ('ts0_te0' in x['name']) and not x['name'].endswith('p0'))]
 for (_ka, _kb), _nm in (((2, 1), 'seqprofile'), ((2, 2), 'profileprofile')):
-    Q(id='C08.%s.diag_step' % _nm, props=['C08'], cls='B', harness='c07_profiles.c', entry='h_c08_profiles_diag', shapes=_prof_diag_shapes,
+    Q(id='C08.%s.diag_step' % _nm, props=['C08'], cls='B', harness='c07_profiles.c', entry='h_c08_profiles_diag', shapes=(_prof_diag_shapes if _nm == 'seqprofile' else _prof_diag_shapes_pp),
       defs=['-DKV_ENTRY_DIAG', '-DKV_KA=%d' % _ka, '-DKV_KB=%d' % _kb],
       mode='wrap', unwind=8, timeout=1500, funcs=['aln_%s_foward' % _nm, 'aln_%s_backward' % _nm, 'aln_%s_meetup' % _nm, 'make_profile_n', 'update_n', 'set_gap_penalties_n'],
       srcs=['lib/src/aln_mem.c'], native_srcs=['lib/src/tldevel.c', 'lib/src/aln_mem.c'], trusted=[TRUST_MSG, 'fabsf: CBMC library model'],
